@@ -441,6 +441,24 @@ theorem cutoff_window_origin_spanning_core (r : Rec) (hcirc : r.circular = true)
           ringAbs r.len i j ≤ min c ((x - y) / 2 + 1)) :=
   window_two_part r hcirc x y c hy0 hyx hxL hc
 
+/-- **The protocluster of an origin-spanning core** — for a core `[x, L) + [0, y)` on a circular record and any
+    neighbourhood `n ≥ 0`: `_extend_area_location(core, n, force_cross_origin=True)` and the `Protocluster`
+    constructor both succeed (no `ValueError` "a core location crossing the origin requires the surrounding area
+    to also cross the origin", no failed assertion); the location is `nbhdTwo` — both ends moved by
+    `min(n, (x − y)/2 + 1)`, or, once they would pass each other, the split `[mid, L) + [0, max(y, mid − 1))` with
+    `mid = (x − y)/2 + y` (D35) — it spans the origin, is a well-formed area and covers every base of the core. -/
+theorem protocluster_of_origin_spanning_core (r : Rec) (hcirc : r.circular = true) (rule : String) (x y n : Int)
+    (hy0 : 0 < y) (hyx : y ≤ x) (hxL : x < r.len) (hn : 0 ≤ n) :
+    ∃ W, extendArea r (areaTwo x y r.len .fwd) n true = .ok W ∧
+      W = nbhdTwo x y (min n ((x - y) / 2 + 1)) r.len ∧
+      mkPC rule (areaTwo x y r.len .fwd) W = .ok ⟨rule, areaTwo x y r.len .fwd, W⟩ ∧
+      RingArea r.len W ∧ bridgesOrigin W = true ∧ Covers W (areaTwo x y r.len .fwd) := by
+  obtain ⟨W, h1, h2, h3, h4, h5⟩ := protocluster_two_part r hcirc rule x y n hy0 hyx hxL hn
+  have : W = nbhdTwo x y (min n ((x - y) / 2 + 1)) r.len := by
+    have := extendArea_ring_two_force r hcirc x y n hy0 hyx hxL hn
+    rw [h1] at this; cases this; rfl
+  exact ⟨W, h1, this, h2, h3, h4, h5⟩
+
 /-- **Chains are never split, on any circular record** (`_partial` with respect to `CoresAreChainsRing`:
     this is its "maximal" half, without any restriction on positions, origin-spanning anchors or chain
     lengths; the "each core is one chain and the smallest span of it" half is proved only under
@@ -798,6 +816,12 @@ example : (match findCores wideRec 20 (wideRec.genes.map (·.loc)) with
 example : extendArea wideRec (areaTwo 90 5 100 .fwd) 20 false = .ok (.compound [⟨70, 100, .fwd⟩, ⟨0, 25, .fwd⟩]) := by
   decide +kernel
 example : extendArea wideRec (areaTwo 90 5 100 .fwd) 60 false = .ok (.simple ⟨0, 100, .fwd⟩) := by decide +kernel
+/-- the protocluster of the core [90,100)+[0,5) on that ring: neighbourhood 20 moves both ends; neighbourhood 60
+    (capped at 43) would cover the whole record and is split at mid = 47 -/
+example : extendArea wideRec (areaTwo 90 5 100 .fwd) 20 true = .ok (.compound [⟨70, 100, .fwd⟩, ⟨0, 25, .fwd⟩]) := by
+  decide +kernel
+example : extendArea wideRec (areaTwo 90 5 100 .fwd) 60 true = .ok (.compound [⟨47, 100, .fwd⟩, ⟨0, 46, .fwd⟩]) := by
+  decide +kernel
 /-- the hypotheses of `extenders_ring_total_wide_partial` on that ring: both genes lie in the wide arc -/
 example : ∀ g ∈ wideRec.genes, GeneIn wideRec.len 0 40 g.loc := by
   intro g hg
